@@ -89,6 +89,10 @@ impl Ctx {
     pub fn count(&self, name: &str, n: u64) {
         *self.counters.lock().unwrap().entry(name.to_string()).or_insert(0) += n;
     }
+    /// like `count`, but sets the value (a universe that is built more than once is counted once)
+    pub fn count_set(&self, name: &str, n: u64) {
+        self.counters.lock().unwrap().insert(name.to_string(), n);
+    }
     pub fn set_rule(&self, s: &str) {
         let mut r = self.rule.lock().unwrap();
         if !r.is_empty() {
